@@ -242,7 +242,8 @@ def _stft_compare(comp, built, c, N, prec, seed, variant, functional=False):
 
 def _stft_lengths(L, S):
     # N < L//2+1 (empty on both sides) and N >= L; L//2+1 <= N < L is outside the lattice
-    return sorted(set(n for n in (0, 1, L // 2) if n < L // 2 + 1) | {L, L + 1, 2 * L + 1, 3 * L + S})
+    extra = {n for n in (S - S // 2 - 1, S - S // 2, S, 2 * S) if n >= L} if S > L else set()
+    return sorted(set(n for n in (0, 1, L // 2) if n < L // 2 + 1) | {L, L + 1, 2 * L + 1, 3 * L + S} | extra)
 
 
 def _stft_eval(pt, seed):
@@ -898,6 +899,16 @@ def subchecks(tier, seed):
                         for w in ("hamming", None):
                             for prec in PRECS:
                                 stft.append((b, L, S, pad, st, w, prec))
+            # frame shifts larger than the frame length (incl. lengths that yield no frame at all),
+            # and kaldi_shift given together with the causal style
+            if L in (2, 3, 4, 5, 8):
+                for S in (L + 1, 2 * L + 1, 3 * L):
+                    for st in STYLES + (("causal", True),):
+                        for prec in PRECS:
+                            stft.append((b, L, S, False, st, "hamming", prec))
+            if L in (3, 4, 6, 7):
+                for prec in PRECS:
+                    stft.append((b, L, 2, True, ("causal", True), "hamming", prec))
     pre = []
     for coeff in (0.0, 0.97, 1.0, -0.5, 3.0):
         for prec in PRECS:
